@@ -33,8 +33,9 @@ import (
 
 // pagingCase is one CASE line of spec/Paging.tla (Gen).
 type pagingCase struct {
-	K       string  `json:"k"`   // "walk" | "tok"
-	Sch     string  `json:"sch"` // "lastkey" | "index"
+	K       string  `json:"k"`     // "walk" | "tok" | "hist" | "sched"
+	Sizes   []int   `json:"sizes"` // page size of call i is sizes[(i-1) mod len]
+	Sch     string  `json:"sch"`   // "lastkey" | "index"
 	N       int     `json:"n"`
 	Size    int     `json:"size"`
 	Rep     int     `json:"rep"`
@@ -77,8 +78,9 @@ type walkObs struct {
 	Case   int    `json:"case"` // index of the case in cases.ndjson
 	Srv    string `json:"srv"`
 	Scheme string `json:"scheme"`
-	N      int    `json:"n"`    // number of items in the model's own un-paged listing
-	Size   int    `json:"size"` // requested page size
+	N      int    `json:"n"`     // number of items in the model's own un-paged listing
+	Size   int    `json:"size"`  // requested page size (of the first call)
+	Sizes  []int  `json:"sizes"` // page size schedule: call i asks for sizes[(i-1) mod len]
 	TClass string `json:"tclass"`
 	Token  string `json:"token"`  // the first page token sent
 	Calls  int    `json:"calls"`  // requests made
@@ -625,7 +627,11 @@ func runCase(idx int, c pagingCase, t target, out *hx.Out) {
 		sample = fmt.Sprintf("%q", shuffled(ids, rnd)[:min(4, len(ids))])
 	}
 	if c.K != "hist" {
-		o := walkObs{K: c.K, Case: idx, Srv: t.name, Scheme: t.scheme, Size: c.Size, TClass: "none", Sample: sample,
+		sizes := c.Sizes
+		if len(sizes) == 0 {
+			sizes = []int{c.Size}
+		}
+		o := walkObs{K: c.K, Case: idx, Srv: t.name, Scheme: t.scheme, Size: sizes[0], Sizes: sizes, TClass: "none", Sample: sample,
 			Init: [][]int{}, Ops: []writeObs{}, FlatKeys: [][]int{}}
 		walk(in, &o, c.Variant, nil)
 		out.Write(o)
@@ -678,7 +684,7 @@ func runCase(idx int, c pagingCase, t target, out *hx.Out) {
 			}
 			ops = append(ops, w)
 		}
-		o := walkObs{K: "hist", Case: idx, Srv: t.name, Scheme: t.scheme, Size: sg.Size, TClass: "none", Sample: sample,
+		o := walkObs{K: "hist", Case: idx, Srv: t.name, Scheme: t.scheme, Size: sg.Size, Sizes: []int{sg.Size}, TClass: "none", Sample: sample,
 			Init: init, Ops: append([]writeObs{}, ops...), Seg: si + 1, FlatKeys: [][]int{}}
 		walk(in, &o, 0, book)
 		out.Write(o)
@@ -714,7 +720,8 @@ func walk(in *inst, o *walkObs, variant int, book *keyBook) {
 		o.Calls++
 		var p page
 		var err error
-		o.Panic = hx.Catch(func() { p, err = in.list(int32(o.Size), token) })
+		size := o.Sizes[(o.Calls-1)%len(o.Sizes)]
+		o.Panic = hx.Catch(func() { p, err = in.list(int32(size), token) })
 		if o.Panic != "" {
 			o.Err = "Panic"
 			o.Ended = true
